@@ -420,11 +420,55 @@ fn try_stream_tokens(block: &syn::Block) -> Option<proc_macro2::TokenStream> {
 
 /// Classify an `into_stream` body by evaluating it once per variant of the reply enum (see shape.rs).
 /// Returns (kind, finals).
-fn classify_into_stream(f: &syn::ImplItemFn, enum_name: &str, variants: &[String], helpers: &shape::Helpers, rpwa_ok: bool) -> (String, Vec<String>) {
-    match try_stream_tokens(&f.block) {
-        Some(t) => shape::classify(t, enum_name, variants, helpers, rpwa_ok),
-        None => ("unknown:no try_stream".into(), vec![]),
+fn classify_into_stream(f: &syn::ImplItemFn, enum_name: &str, variants: &[String], helpers: &shape::Helpers, rpwa_ok: bool, file: Option<&syn::File>) -> (String, Vec<String>) {
+    classify_body(&f.block, enum_name, variants, helpers, rpwa_ok, file)
+}
+
+/// The body itself holds the `try_stream!`, or it delegates to a free function of the same file that does
+/// (`reply_stream(input, src, |p| matches!(p, ..))`): then that function's body is evaluated with the arguments bound to its
+/// parameters — closures for its function parameters, the connection and the command under the helper's own names.
+fn classify_body(block: &syn::Block, enum_name: &str, variants: &[String], helpers: &shape::Helpers, rpwa_ok: bool, file: Option<&syn::File>) -> (String, Vec<String>) {
+    if let Some(t) = try_stream_tokens(block) {
+        return shape::classify(t, enum_name, variants, helpers, rpwa_ok);
     }
+    let tail = block.stmts.iter().rev().find_map(|s| match s {
+        syn::Stmt::Expr(e, _) => Some(e),
+        _ => None,
+    });
+    let (Some(syn::Expr::Call(call)), Some(file)) = (tail, file) else { return ("unknown:no try_stream".into(), vec![]) };
+    let syn::Expr::Path(fp) = &*call.func else { return ("unknown:no try_stream".into(), vec![]) };
+    let Some(fname) = fp.path.segments.last().map(|s| s.ident.to_string()) else { return ("unknown:no try_stream".into(), vec![]) };
+    for item in &file.items {
+        if let syn::Item::Fn(hf) = item {
+            if hf.sig.ident == fname && hf.sig.inputs.len() == call.args.len() {
+                let Some(tokens) = try_stream_tokens(&hf.block) else { continue };
+                let mut closures = shape::Closures::new();
+                let (mut conn, mut input) = (String::new(), String::new());
+                for (p, a) in hf.sig.inputs.iter().zip(call.args.iter()) {
+                    let syn::FnArg::Typed(pt) = p else { return ("unknown:helper with receiver".into(), vec![]) };
+                    let syn::Pat::Ident(pi) = &*pt.pat else { return ("unknown:helper parameter pattern".into(), vec![]) };
+                    let pname = pi.ident.to_string();
+                    let mut a = a;
+                    while let syn::Expr::Reference(r) = a {
+                        a = &r.expr;
+                    }
+                    match a {
+                        syn::Expr::Closure(c) => {
+                            closures.insert(pname, c.clone());
+                        }
+                        syn::Expr::Path(ap) if ap.path.is_ident("src") => conn = pname,
+                        syn::Expr::Path(ap) if ap.path.is_ident("input") => input = pname,
+                        other => return (format!("unknown:helper argument {}", shape::norm(other)), vec![]),
+                    }
+                }
+                if conn.is_empty() || input.is_empty() {
+                    return ("unknown:helper is not given connection and command".into(), vec![]);
+                }
+                return shape::classify_in(tokens, enum_name, variants, helpers, rpwa_ok, &closures, &conn, &input);
+            }
+        }
+    }
+    ("unknown:no try_stream".into(), vec![])
 }
 
 /// The default `Sequence::into_stream` in the trait definition must be a "once" body: command + acknowledgement, one
@@ -438,8 +482,10 @@ fn check_default_into_stream(file: &syn::File, rpwa_ok: bool) -> Result<(), Stri
                     if let syn::TraitItem::Fn(f) = ti {
                         if f.sig.ident == "into_stream" {
                             let body = f.default.as_ref().ok_or("no default body")?;
-                            let tokens = try_stream_tokens(body).ok_or("default into_stream without try_stream")?;
-                            let (kind, _) = shape::classify(tokens, "Output", &["AnyReply".to_string()], &helpers, rpwa_ok);
+                            let (kind, _) = classify_body(body, "Output", &["AnyReply".to_string()], &helpers, rpwa_ok, Some(file));
+                            if kind == "unknown:no try_stream" {
+                                return Err("default into_stream without try_stream".into());
+                            }
                             if kind == "once" {
                                 return Ok(());
                             }
@@ -647,7 +693,7 @@ fn main() {
                     let variants: Vec<String> = enums.iter().find(|e| e.name == output).map(|e| e.variants.iter().map(|(v, _)| v.clone()).collect()).unwrap_or_default();
                     let helpers = parsed.get(module.as_str()).map(shape::collect_helpers).unwrap_or_default();
                     let enum_last = output.rsplit("::").next().unwrap_or("").to_string();
-                    let (k, fs) = classify_into_stream(f, &enum_last, &variants, &helpers, rpwa_ok);
+                    let (k, fs) = classify_into_stream(f, &enum_last, &variants, &helpers, rpwa_ok, parsed.get(module.as_str()));
                     kind = k;
                     finals = fs;
                 }
@@ -794,8 +840,22 @@ fn main() {
             problems.push(format!("cannot parse {path}"));
             return;
         };
-        struct V<'a>(&'a mut BTreeMap<String, Value>, Vec<String>);
+        struct V<'a>(&'a mut BTreeMap<String, Value>, Vec<String>, BTreeMap<String, Vec<String>>);
         impl<'ast, 'a> syn::visit::Visit<'ast> for V<'a> {
+            // free functions too: a retry budget may be built by a helper (`fn default_retry()`) that `into_stream` calls
+            fn visit_item_fn(&mut self, f: &'ast syn::ItemFn) {
+                self.1.push(f.sig.ident.to_string());
+                syn::visit::visit_item_fn(self, f);
+                self.1.pop();
+            }
+            fn visit_expr_call(&mut self, c: &'ast syn::ExprCall) {
+                if let (Some(cur), syn::Expr::Path(p)) = (self.1.last().cloned(), &*c.func) {
+                    if let Some(last) = p.path.segments.last() {
+                        self.2.entry(cur).or_default().push(last.ident.to_string());
+                    }
+                }
+                syn::visit::visit_expr_call(self, c);
+            }
             fn visit_item_const(&mut self, c: &'ast syn::ItemConst) {
                 self.0.insert(c.ident.to_string(), Value::String(canon_const(&c.expr)));
             }
@@ -829,7 +889,20 @@ fn main() {
                 syn::visit::visit_expr_method_call(self, m);
             }
         }
-        syn::visit::visit_file(&mut V(consts, Vec::new()), &f);
+        let mut v = V(consts, Vec::new(), BTreeMap::new());
+        syn::visit::visit_file(&mut v, &f);
+        // a function that takes its budget from a helper of the same file inherits the helper's budget
+        let calls = v.2.clone();
+        for (caller, callees) in calls {
+            if !v.0.contains_key(&format!("RETRY[{caller}]")) {
+                for callee in callees {
+                    if let Some(b) = v.0.get(&format!("RETRY[{callee}]")).cloned() {
+                        v.0.insert(format!("RETRY[{caller}]"), b);
+                        break;
+                    }
+                }
+            }
+        }
     };
     if !lab {
         grab_consts("zvt_feig_terminal/src/feig.rs", &mut consts, &mut problems);
